@@ -63,7 +63,7 @@ def run_local(case: Dict[str, Any], strategy: Any, workdir: str, n: int) -> Dict
         # descriptor-ownership monitor: a lock object may only close a descriptor it opened and has not closed yet
         # (descriptor numbers are recycled at once, so a stale close hits whatever another handle just opened)
         me = sched.me()
-        if me is not None:
+        if me is not None and not sched.aborting:      # (an execution being torn down unwinds through the handlers)
             if fd not in owned.setdefault(me.name, set()):
                 other = next((n_ for n_, s_ in owned.items() if fd in s_), None)
                 viol.append(("close-of-descriptor-not-owned",
